@@ -28,6 +28,9 @@ STATES = ["idle", "waiting_for_ball", "waiting_for_target_ready", "ejecting", "b
           "eject_broken"]
 
 
+WAIT_ITEMS = ("IB+", "IB-", "IR", "XC", "CW", "ICH", "OW", "LK+", "LK-")     # see coq/C05/Waits.v
+
+
 def install_hooks():
     """Class-level write hooks (once per worker process)."""
     if _PATCHED["done"]:
@@ -90,9 +93,97 @@ def install_hooks():
     def lost_incoming_ball(self, source):
         r = _REC["cur"]
         if r is not None and r.rig is not None and self.machine is r.rig.machine:
-            r.log.append(["L", self.name, source.name, self.incoming_balls_handler.get_num_incoming_balls()])
+            oh = self.outgoing_balls_handler
+            cf = getattr(oh, "_cancel_future", None)
+            # + what lost_incoming_ball finds: state, available_balls, can the current eject be cancelled, queued ejects
+            r.log.append(["L", self.name, source.name, self.incoming_balls_handler.get_num_incoming_balls(),
+                          self.state, self.available_balls, bool(cf is not None and not cf.done()),
+                          oh._eject_queue.qsize() if hasattr(oh, "_eject_queue") else -1])
         return orig_lost(self, source)
     BallDevice.lost_incoming_ball = lost_incoming_ball
+
+    # the waiting states of a device as a target (coq/C05/Waits.v): every mutation of _incoming_balls, the calls that
+    # block / wake, and the lock _is_timeouting.  Items: ["IB+", dev, id] ["IB-", dev, id] (list mutation),
+    # ["IR", dev, id] (remove_incoming_ball called), ["XC", dev, id] (external confirm), ["CW", dev] (a source starts to wait
+    # for a count change), ["ICH", dev] (incoming_balls_changed), ["OW", dev] (wait_for_no_incoming_balls),
+    # ["LK+", dev] / ["LK-", dev] (own eject took / released _is_timeouting)
+    from mpf.devices.ball_device.incoming_balls_handler import IncomingBallsHandler
+    from mpf.devices.ball_device.ball_count_handler import BallCountHandler
+
+    def mine(handler):
+        r = _REC["cur"]
+        if r is not None and r.rig is not None and handler.machine is r.rig.machine:
+            return r
+        return None
+
+    class LoggedList(list):
+        def __init__(self, handler):
+            super().__init__()
+            self._h = handler
+            self._n = 0
+
+        def append(self, ball):
+            ball._verif_id = self._n
+            self._n += 1
+            r = _REC["cur"]
+            if r is not None:
+                r.log.append(["IB+", self._h.ball_device.name, ball._verif_id])
+            super().append(ball)
+
+        def remove(self, ball):
+            r = _REC["cur"]
+            if r is not None:
+                r.log.append(["IB-", self._h.ball_device.name, getattr(ball, "_verif_id", -1)])
+            super().remove(ball)
+
+    orig_ih_init = IncomingBallsHandler.__init__
+
+    def ih_init(self, ball_device):
+        orig_ih_init(self, ball_device)
+        if _REC["cur"] is not None:
+            self._incoming_balls = LoggedList(self)
+    IncomingBallsHandler.__init__ = ih_init
+
+    def note(cls, meth, tag, with_ball=False):
+        orig = getattr(cls, meth)
+
+        def wrapped(self, *a, **kw):
+            r = mine(self)
+            if r is not None:
+                item = [tag, self.ball_device.name]
+                if with_ball:
+                    item.append(getattr(a[0] if a else kw.get("incoming_ball"), "_verif_id", -1))
+                r.log.append(item)
+            return orig(self, *a, **kw)
+        setattr(cls, meth, wrapped)
+    note(IncomingBallsHandler, "remove_incoming_ball", "IR", True)
+    note(IncomingBallsHandler, "wait_for_no_incoming_balls", "OW")
+    note(IncomingBallsHandler, "end_eject", "LK-")
+    note(BallCountHandler, "wait_for_ball_count_changed", "CW")
+    if hasattr(BallCountHandler, "incoming_balls_changed"):
+        note(BallCountHandler, "incoming_balls_changed", "ICH")
+    orig_start = IncomingBallsHandler.start_eject
+
+    def start_eject(self):
+        co = orig_start(self)
+
+        async def locked():
+            res = await co
+            r = mine(self)
+            if r is not None:
+                r.log.append(["LK+", self.ball_device.name])
+            return res
+        return locked()
+    IncomingBallsHandler.start_eject = start_eject
+    orig_xc = IncomingBall._external_confirm
+
+    def xc(self, future):
+        r = _REC["cur"]
+        if r is not None and r.rig is not None and self._source.machine is r.rig.machine and not future.cancelled() \
+                and not self._target.is_playfield():
+            r.log.append(["XC", self._target.name, getattr(self, "_verif_id", -1)])
+        return orig_xc(self, future)
+    IncomingBall._external_confirm = xc
 
     wrap(BallDevice, TRACK_DEV, "dev")
     wrap(Playfield, TRACK_PF, "pf")
@@ -166,6 +257,13 @@ def make_config(topo):
         "playfields": {"playfield": {"default_source_device": "plunger", "tags": "default"}},
         "virtual_platform_start_active_switches": ", ".join(dt["trough"]["sw"][:topo["balls"]]),
     }
+    if topo.get("hold") and "lock" in dt:
+        # a ball_hold over the lock: it claims the balls that enter (instead of the simulator's claim handler) and its
+        # release_one / release_all events are the source of the lock's eject requests (BallHold.release_balls)
+        cfg["ball_holds"] = {"bh": {"hold_devices": "lock", "balls_to_hold": dt["lock"]["cap"],
+                                    "enable_events": "verif_hold_enable", "disable_events": "verif_hold_disable",
+                                    "release_one_events": "verif_release_one",
+                                    "release_all_events": "verif_release_all"}}
     if topo.get("game"):
         sw["s_start"] = {"number": "2", "tags": "start"}
         cfg["game"] = {"balls_per_game": 1}
@@ -283,6 +381,23 @@ class World:
         s["known"] = m.ball_controller.num_balls_known
         return s
 
+    def waits(self):
+        """what each device's handlers are blocked on, read off the synchronisation objects (loop quiescent):
+        [_has_no_incoming_balls set, len(_incoming_balls), sources waiting for a count change, outgoing handler idle,
+         _is_timeouting locked, capacity - handled balls, queued ejects]; None = not observable in this tree"""
+        w = {}
+        for d in self.devs:
+            bd = self.rig.machine.ball_devices[d]
+            ih, oh, ch = bd.incoming_balls_handler, bd.outgoing_balls_handler, bd.ball_count_handler
+            try:
+                w[d] = [1 if ih._has_no_incoming_balls.is_set() else 0, len(ih._incoming_balls),
+                        sum(1 for f in ch._ball_count_changed_futures if not f.done()),
+                        1 if oh.is_idle else 0, 1 if ih._is_timeouting.locked() else 0,
+                        ch.counter.capacity - ch.handled_balls, oh._eject_queue.qsize()]
+            except AttributeError:
+                w[d] = None
+        return w
+
     def truth(self):
         return {"dev": {d: sum(1 for x in o if x) for d, o in self.occ.items()}, "loose": self.loose,
                 "pending_lost": self.pending_lost,
@@ -308,8 +423,10 @@ class World:
         self.names = names
         for n in sorted(names):
             ev.add_handler(n, self._mk_handler(n), priority=1000000)
-        if "lock" in self.devs:
+        if "lock" in self.devs and not self.topo.get("hold"):
             ev.add_handler("balldevice_lock_ball_enter", self._claim_handler, priority=5)
+        if "lock" in self.devs and self.topo.get("hold"):
+            ev.post("verif_hold_enable")
         for d in self.devs:
             if self.holds.get(d):
                 ev.add_handler("balldevice_%s_ball_eject_attempt" % d, self._mk_hold_handler(d), priority=3)
@@ -320,7 +437,7 @@ class World:
         for d, v in self.devs.items():
             self._wrap_coil(d, m.coils[v["coil"]])
         self.rig.advance(1.0)
-        self.log.append(["T", self.snap(), self.is_rest(), self.truth(), self.now_us()])
+        self.log.append(["T", self.snap(), self.is_rest(), self.truth(), self.now_us(), self.waits()])
 
     @staticmethod
     def kw(kw):
@@ -532,7 +649,11 @@ class World:
         tid = self.now_us()
         self.transit.append([d, dst, tid, False, False])
         self.seat_off(d, idx)
-        self.at(f[2], self.ball_arrives, d, dst, None, tid)
+        if kind == "astray":
+            # the ball leaves (and passes d's confirm switch / event) but never reaches the target: it ends on the playfield
+            self.at(f[2], self.ball_strays, d, dst, tid)
+        else:
+            self.at(f[2], self.ball_arrives, d, dst, None, tid)
         if dst != d and self.devs[d]["confirm"] != "target":
             self.at(min(self.cdelay, max(10, f[2] - 40)), self.confirm_pass, d)
 
@@ -544,6 +665,15 @@ class World:
             self.sw("s_%s_confirm" % d, 0)
         else:
             self.rig.machine.events.post("verif_%s_confirmed" % d)
+
+    def ball_strays(self, src, dst, tid):
+        for x in self.transit:
+            if x[0] == src and x[1] == dst and x[2] == tid:
+                self.transit.remove(x)
+                break
+        self.loose += 1
+        self.touched(src)
+        self.log.append(["S", "astray", src, "playfield", self.now_us()])
 
     def ball_arrives(self, src, dst, dwell=None, tid=None):
         for x in self.transit:
@@ -658,6 +788,9 @@ class World:
             self.pf_hit()
         elif k == "lockleak":
             self.leak("lock", a[1] if len(a) > 1 else 1)
+        elif k in ("release_one", "release_all"):
+            self.log.append(["A", k])
+            m.events.post("verif_" + k)
         elif k == "start_game":
             self.log.append(["A", "start_game"])
             self.sw("s_start", 1)
@@ -702,7 +835,7 @@ class World:
             self.tick()
 
     def tick(self):
-        item = ["T", self.snap(), self.is_rest(), self.truth(), self.now_us()]
+        item = ["T", self.snap(), self.is_rest(), self.truth(), self.now_us(), self.waits()]
         if self.log and self.log[-1][0] == "T" and self.log[-1][2] == item[2]:
             self.log[-1] = item         # nothing happened since the last tick
         else:
@@ -731,6 +864,7 @@ class World:
                 self.final_rest = self.is_rest()
                 g = self.rig.machine.game
                 self.final = {"snap": self.snap(), "truth": self.truth(), "spont_loss": dict(self.spont_loss),
+                              "waits": self.waits(), "t": self.now_us(), "last_phys": int(self.last_phys * 1e6),
                               "idle": {d: self.rig.machine.ball_devices[d].outgoing_balls_handler.is_idle
                                        for d in self.devs},
                               "game": None if not self.topo.get("game") else
@@ -787,6 +921,7 @@ def gen_fault(rng, timeout_ms, to_pf, profile, miss_extra=20000):
     return ["ok", leave, rng.choice([150, 300, 600, 1000, 1400]), -1]
 
 
+C05_TEMPLATES = ["lost_confirmed", "hold_release"]      # generated by C05 only (C04's ledger has no label for a ball that goes astray)
 TEMPLATES = ["two_feeders", "entrance_overfill", "flicker_late", "multi_leak", "double_kick", "cap2_mid_eject",
              "held_attempt", "starved_request", "late_confirmed"]
 
@@ -931,6 +1066,76 @@ def gen_template(rng, profile):
                   "plunger": [okpf() for _ in range(8)], "lock": [],
                   "outhole": [["ok", 50, topo["cdelay"] + miss_o + over, -1]] + [okdev() for _ in range(4)]}
         claims = []
+    elif profile == "lost_confirmed":
+        # trough (confirm_eject_type switch / event) -> plunger / staging device (1-3 places) -> playfield: a ball leaves
+        # the trough, passes its confirm switch and never reaches the plunger (it ends on the playfield).  The trough's
+        # eject is over (confirmed); the plunger's incoming-ball entry times out after ball_missing_timeout.  Before /
+        # after that the plunger is asked to eject a ball it holds, or the trough to send the next one into the slot.
+        kind = rng.choice(["switch", "event"])
+        pk = rng.choice([1, 2, 2, 2, 3])
+        n = rng.choice([3, 4, 5])
+        topo = _base_topo(rng, trough_n=n, balls=n, plunger_k=pk, miss_extra=rng.choice([1500, 3000]),
+                          confirm={"trough": kind})
+        miss = topo["t_trough"] + topo["miss_extra"]
+        script = []
+        held = rng.choice(list(range(pk)) + [max(0, pk - 2)] * 2 + [pk - 1])     # balls parked in the plunger first
+        for j in range(held):
+            script.append([500 if j == 0 else rng.choice([2500, 3500]), "request", "plunger"])
+        # the ball that goes astray, wanted by the plunger itself or by the playfield
+        after = rng.random() < 0.5 and pk >= 2 and held >= 1
+        # (after: nothing replaces the lost ball - the trough is empty - and the plunger, holding a ball and not full, is
+        #  asked to eject to the playfield once the entry has timed out)
+        want = rng.choice(["request", "request", "add_ball"]) if not after else "request"
+        if after:
+            topo["trough_n"] = max(2, held + 1)
+            topo["balls"] = held + 1
+        script.append([rng.choice([2500, 3500]) if script else 500, want])
+        if script[-1][1] == "request":
+            script[-1].append("plunger")
+        stray_pos = held
+        # what happens around the timeout of the incoming ball
+        for j in range(rng.choice([1, 1, 2])):
+            gap = rng.choice([300, 1200, miss - 800, miss + 600, miss + 2500])
+            a = rng.choice(["add_ball", "add_ball", "request"])
+            if after and j == 0:
+                gap, a = rng.choice([miss + 600, miss + 2500, miss + 2500]), "add_ball"
+            script.append([max(100, gap), a] + (["plunger"] if a == "request" else []))
+        script += _tail(rng, topo, rng.choice([0, 0, 1]))
+        tf = [okdev() for _ in range(8)]
+        if rng.random() < 0.7:
+            tf[stray_pos] = ["astray", rng.choice([20, 50, 80]), rng.choice([400, 900, 2000]), -1]
+        else:
+            # the timeout / the path cancellation (cancel_path_if_target_is) races the arrival: the ball does arrive, just
+            # before or just after ball_missing_timeout has expired at the plunger
+            tf[stray_pos] = ["ok", 50, topo["cdelay"] + miss + rng.choice([-400, -120, 130, 400, 1200]), -1]
+        if rng.random() < 0.25:
+            tf[stray_pos + 1] = ["astray", 50, rng.choice([400, 900]), -1]
+        faults = {"trough": tf, "plunger": [okpf() for _ in range(10)], "lock": []}
+        claims = []
+    elif profile == "hold_release":
+        # a ball_hold keeps the balls shot into the lock; its release_one / release_all events request the ejects
+        # (BallHold.release_balls -> BallDevice.eject(balls=k): k chains, k ejects queued at the lock), with runs of failed
+        # ejects, a second release while the first eject is still going on, and a ball that jumps out before the release
+        k = rng.choice([1, 2, 2])
+        topo = _base_topo(rng, lock_k=k, hold=1, att_lock=rng.choice([0, 2, 3]), trough_n=rng.choice([3, 4]))
+        script = []
+        for j in range(k):
+            script += [[500 if j == 0 else 3500, "add_ball"], [rng.choice([4000, 5000]), "lockshot", rng.choice([300, 500])]]
+        if rng.random() < 0.2:
+            script.append([rng.choice([3000, 7000]), "lockleak", 1])
+        script.append([rng.choice([3000, 5000]), rng.choice(["release_all", "release_all", "release_one"])])
+        for _ in range(rng.choice([0, 1, 2])):
+            script.append([rng.choice([100, 700, 2500, 6000]), rng.choice(["release_one", "release_all", "lockshot", "eject"])])
+            if script[-1][1] == "lockshot":
+                script[-1].append(rng.choice([300, 500]))
+            elif script[-1][1] == "eject":
+                script[-1].append("lock")
+        lockf = []
+        for _ in range(8):
+            r = rng.random()
+            lockf.append(["stuck"] if r < 0.3 else ["fallback", 50, rng.choice([300, 900])] if r < 0.45 else okpf())
+        faults = {"trough": [okdev() for _ in range(6)], "plunger": [okpf() for _ in range(8)], "lock": lockf}
+        claims = []
     elif profile == "starved_request":
         # two requests queued at once, the one of the device that comes FIRST in the handler order of
         # balldevice_balls_available (the trough: it has no source devices) can never be served; then a ball that can
@@ -970,7 +1175,7 @@ def gen_template(rng, profile):
 def gen_case(rng, tier, i, profile=None):
     if profile is None and rng.random() < 0.36:
         profile = rng.choice(TEMPLATES)
-    if profile in TEMPLATES or profile == "save_twice":
+    if profile in TEMPLATES or profile == "save_twice" or profile in C05_TEMPLATES:
         return gen_template(rng, profile)
     profile = profile or rng.choice(["calm", "calm", "faulty", "faulty", "busy"])
     n = rng.choice([2, 3, 3, 4, 5])
@@ -1083,7 +1288,7 @@ def parse_log(log, devs):
     for it in log[start:]:
         if it[0] == "W" and it[3] == it[4]:
             continue
-        if it[0] == "A":
+        if it[0] == "A" or it[0] in WAIT_ITEMS:
             continue
         if it[0] == "P" and it[1] in ("sw_playfield_active", "playfield_active", "unexpected_ball_on_playfield",
                                       "balldevice_ball_missing"):
